@@ -405,3 +405,11 @@ PROPS["C11"].update({"template_sets": [PROPS["C05"]["templates"], PRELUDE + ["90
                      "explanation": KANI_EXPL + " Verus (unbounded): Plushy::size counts every gene (close markers included), Vector::size / Bitstring::size are the number of genes, gene_mut addresses "
                                     "exactly the gene at the position — the `Linear` impls that WithOneOverLength, UMAD and the generators measure genomes with.",
                      "assumptions": KANI_ASSUME + ["Vec::len / Vec::get_mut as vstd specifies"]})
+
+# C17: the blanket `impl<T: X> DynX for T` half of the erased layer is proved for an ARBITRARY wrapped implementation; the generated pointer impls need an
+# unsizing coercion Verus rejects and stay with the Kani harnesses
+PROPS["C17"].update({"templates": PRELUDE + ["83_ec_erased.vrs"] + MAIN, "extern": True, "steps": [run_verus_property, run_kani_property],
+                     "explanation": KANI_EXPL + " Verus (unbounded, any wrapped implementation satisfying its trait contract): dyn_select / dyn_mutate / dyn_recombine / dyn_apply / dyn_make_child of the blanket "
+                                    "impls return the wrapped call's value, its error converted by Into, and leave the stream in the wrapped call's final state.",
+                     "assumptions": KANI_ASSUME + ["an arbitrary wrapped implementation satisfies its trait contract (is a function of its arguments and the stream state)",
+                                                   "the generated impls for the 28 pointer flavours of `dyn DynX` are NOT under Verus (unsizing `&mut &mut R -> &mut dyn RngCore` unsupported); Kani only"]})
